@@ -330,6 +330,9 @@ ada_really_inline bool url::parse_scheme(const std::string_view input) {
 
 ada_really_inline bool url::parse_host(std::string_view input) {
   ada_log("parse_host ", input, " [", input.size(), " bytes]");
+  // The host is about to be replaced: parse_ipv4/parse_ipv6 set the kind of
+  // the new host, any other host is a domain or an opaque host.
+  host_type = url_host_type::DEFAULT;
   if (input.empty()) {
     return is_valid = false;
   }  // technically unnecessary.
@@ -671,6 +674,7 @@ bool url::set_host_or_hostname(const std::string_view input) {
       // special.
       if (host_view.empty() && !is_special()) {
         host = "";
+        host_type = url_host_type::DEFAULT;
         return check_url_size();
       }
 
@@ -691,6 +695,7 @@ bool url::set_host_or_hostname(const std::string_view input) {
   if (new_host.empty()) {
     // Set url's host to the empty string.
     host = "";
+    host_type = url_host_type::DEFAULT;
   } else {
     // Let host be the result of host parsing buffer with url is not special.
     if (!parse_host(new_host)) {
@@ -701,6 +706,7 @@ bool url::set_host_or_hostname(const std::string_view input) {
     // If host is "localhost", then set host to the empty string.
     if (host == "localhost") {
       host = "";
+      host_type = url_host_type::DEFAULT;
     }
   }
   return check_url_size();
